@@ -331,6 +331,16 @@ def run_shard(module, tier, seed, shard, n_shards, budget_s, only=None):
     anchors = {}
     for dotted in getattr(module, 'ANCHORS', []):
         anchors[dotted] = tracer.reached(dotted) if tracer.on else None
+    dump = os.environ.get('CHI_VERIF_LINEDUMP')
+    if dump and tracer.on:
+        # (diagnostic: which statements of chi this shard executed; read by
+        # tools/uncovered.py)
+        os.makedirs(dump, exist_ok=True)
+        root = os.path.dirname(tracer.root)
+        with open(os.path.join(dump, '%s_%d.json' % (ctx.prop, shard)),
+                  'w') as f:
+            json.dump(sorted((os.path.relpath(os.path.realpath(fn), root), ln)
+                             for fn, ln in tracer.lines), f)
     nontrivial = sorted(k for k, v in ctx.sigs.items() if v)
     return {
         'prop': ctx.prop, 'tier': tier, 'seed': seed, 'shard': shard,
